@@ -7,6 +7,7 @@
 #include "wbgen.h"
 #include "world_builder/verif_hooks.h"
 #include "world_builder/objects/surface.h"
+#include "world_builder/objects/bezier_curve.h"
 using namespace kit;
 using namespace wbgen;
 using WorldBuilder::World;
@@ -22,12 +23,12 @@ namespace
   // coordinate settings: 0 cartesian; 1..3 spherical at latitude 0, 60, 85; 4 spherical trench across the dateline;
   // 5 spherical trench along a meridian from latitude 40 to 70; 6 along a meridian from latitude 0 to 85
   const int NSET = 7, NSHAPE = 4;
-  const std::vector<uint64_t> LINE_RADIX = {2 /*slab,fault*/, NSET, NSHAPE, 6, 3, 2, 2, 2 /*thickness pair variant*/};
+  const std::vector<uint64_t> LINE_RADIX = {2 /*slab,fault*/, NSET, NSHAPE, 6, 3, 2, 2, 2 /*thickness pair variant*/, 2 /*first segment is an arc from the dip to 180 - dip (through the vertical)*/};
 
-  struct Line { bool fault; int setting, shape; double dip, mind, len, thick; bool thick_grows; };
+  struct Line { bool fault; int setting, shape; double dip, mind, len, thick; bool thick_grows; bool arc_through_vertical; };
   Line decode_line(const std::vector<unsigned> &d)
   {
-    return {d[0] == 1, static_cast<int>(d[1]), static_cast<int>(d[2]), DIPS[d[3]], MIND[d[4]], LEN[d[5]], THICK[d[6]], d[7] == 1};
+    return {d[0] == 1, static_cast<int>(d[1]), static_cast<int>(d[2]), DIPS[d[3]], MIND[d[4]], LEN[d[5]], THICK[d[6]], d[7] == 1, d[8] == 1};
   }
   // trench shapes in local units (u along, v across), roughly 3 units long
   std::vector<P2> shape_pts(int shape)
@@ -64,7 +65,7 @@ namespace
     // growing thickness: the largest value appears only as the down-dip entry of the last segment
     const std::string thick = l.thick_grows ? "[" + num(l.thick) + "," + num(2*l.thick) + "]" : "[" + num(l.thick) + "]";
     std::string feat = "{\"model\":\"" + std::string(l.fault ? "fault" : "subducting plate") + "\",\"name\":\"L\",\"coordinates\":" + pts(c) + ",\"dip point\":" + pt(dip_point) +
-                       ",\"min depth\":" + num(l.mind) + ",\"segments\":[{\"length\":" + num(0.6*l.len) + ",\"thickness\":" + thick + ",\"angle\":[" + num(l.dip) + "]},"
+                       ",\"min depth\":" + num(l.mind) + ",\"segments\":[{\"length\":" + num(0.6*l.len) + ",\"thickness\":" + thick + ",\"angle\":[" + num(l.dip) + (l.arc_through_vertical ? "," + num(180 - l.dip) : std::string()) + "]},"
                        "{\"length\":" + num(0.4*l.len) + ",\"thickness\":" + (l.thick_grows ? "[" + num(2*l.thick) + "," + num(4*l.thick) + "]" : thick) + ",\"angle\":[" + num(l.dip) + (l.thick_grows ? std::string() : "," + num(std::min(179.0, l.dip + 15))) + "]}]";
     if (l.fault) feat += ",\"temperature models\":[{\"model\":\"linear\",\"max distance fault center\":" + num(3*l.thick) + ",\"center temperature\":900,\"side temperature\":1100}]";
     else feat += ",\"temperature models\":[{\"model\":\"linear\",\"max distance slab top\":" + num(3*l.thick) + ",\"top temperature\":300,\"bottom temperature\":1300}]";
@@ -102,15 +103,59 @@ namespace
     std::vector<double> depths = {0.0, 0.5*l.mind, l.mind, l.mind + 1e3, l.mind + 0.1*l.len, l.mind + 0.3*l.len, l.mind + 0.6*l.len, l.mind + l.len, deepest, 1.05*deepest + 1e3, l.mind + 0.45*l.len + 0.5*l.thick, l.mind + l.len + 0.5*tmax, l.mind + 0.7*tmax};
     bool any_in = false;
     const std::string ldesc = JObj().str("feature", l.fault ? "fault" : "subducting plate").integer("coordinate_setting", l.setting).integer("trench_shape", l.shape).num("dip", l.dip)
-                              .num("min_depth", l.mind).num("length", l.len).num("thickness", l.thick).boolean("thickness_grows_down_dip", l.thick_grows).done();
-    for (int iu = -12; iu <= 12; ++iu) for (int iv = -12; iv <= 12; ++iv)
+                              .num("min_depth", l.mind).num("length", l.len).num("thickness", l.thick).boolean("thickness_grows_down_dip", l.thick_grows).boolean("first_segment_is_an_arc_through_the_vertical", l.arc_through_vertical).done();
+    // extra probes (natural x, y, depth; or a raw cartesian point with its depth): see below
+    struct Extra { double x, y, depth; bool raw; P3 p; };
+    std::vector<Extra> extras;
+    // (a) the down-dip end of the body below every point of the actual trench curve (it overshoots the straight connections of the
+    //     coordinates at bends): the last few per cent of the length, where a culling box that is a little too small bites first
+    if (!f.sph)
+      {
+        std::vector<Point<2>> cp;
+        for (auto &q : shape_pts(l.shape)) { const P2 m = f.map(q[0], q[1]); cp.emplace_back(m[0], m[1], WorldBuilder::CoordinateSystem::cartesian); }
+        const WorldBuilder::Objects::BezierCurve curve(cp);
+        const double dr = l.dip * PI / 180;
+        if (!l.arc_through_vertical)
+          for (size_t sg = 0; sg + 1 < cp.size(); ++sg) for (int k = 0; k <= 16; ++k)
+              {
+                const Point<2> c0 = curve(sg, k/16.0), c1 = curve(sg, std::min(1.0, k/16.0 + 1e-4) == k/16.0 ? k/16.0 - 1e-4 : std::min(1.0, k/16.0 + 1e-4));
+                double tx = c1[0]-c0[0], ty = c1[1]-c0[1]; const double tn = std::sqrt(tx*tx+ty*ty); if (!(tn > 0)) continue; tx /= tn; ty /= tn;
+                if (k/16.0 + 1e-4 > 1.0) { tx = -tx; ty = -ty; }
+                // unit normal pointing to the side of the dip point (v < 0)
+                double nx = ty, ny = -tx;
+                const P2 dp = f.map(0, -8);
+                if ((dp[0]-c0[0])*nx + (dp[1]-c0[1])*ny < 0) { nx = -nx; ny = -ny; }
+                for (double frac : {0.5, 0.9, 0.97, 0.995})
+                  {
+                    // first segment only (constant dip): a point on the centre plane of the fault / just below the top of the slab
+                    const double along = frac * 0.6 * l.len, h = along * std::cos(dr), dep = l.mind + along * std::sin(dr) + (l.fault ? 0.0 : 0.3 * l.thick / std::max(0.2, std::fabs(std::cos(dr))));
+                    extras.push_back({c0[0] + nx*h, c0[1] + ny*h, dep, false, {{0,0,0}}});
+                  }
+              }
+      }
+    // (b) spherical worlds: cartesian columns (same x and y, z varying fastest), as a cartesian mesh generator visits them
+    if (f.sph)
+      {
+        const P2 c = f.map(0, -1.0);
+        const P3 centre = query_point(true, c[0], c[1], 0);
+        for (int ix = -2; ix <= 2; ++ix) for (int iy = -2; iy <= 2; ++iy) for (int iz = 0; iz <= 8; ++iz)
+              {
+                const P3 q = {{centre[0] + ix*0.6e5, centre[1] + iy*0.6e5, centre[2] * (1.0 - iz*0.012)}};
+                const double rr = std::sqrt(q[0]*q[0] + q[1]*q[1] + q[2]*q[2]);
+                extras.push_back({0, 0, R_EARTH - rr, true, q});
+              }
+      }
+    for (int iu = -12; iu <= 12 + static_cast<int>(extras.size()); ++iu) for (int iv = -12; iv <= 12; ++iv)
         {
-          const P2 xy = f.map(iu*step, iv*step);
+          const bool is_extra = iu > 12;
+          if (is_extra && iv != -12) continue;
+          const P2 xy = is_extra ? P2{{extras[static_cast<size_t>(iu - 13)].x, extras[static_cast<size_t>(iu - 13)].y}} : f.map(iu*step, iv*step);
           const double x = xy[0], y = xy[1];
           if (f.sph && std::fabs(y) > 89.5) continue;
-          for (double depth : depths)
+          const std::vector<double> one_depth = is_extra ? std::vector<double>{extras[static_cast<size_t>(iu - 13)].depth} : std::vector<double>();
+          for (double depth : (is_extra ? one_depth : depths))
             {
-              const P3 p = query_point(f.sph, x, y, depth);
+              const P3 p = is_extra && extras[static_cast<size_t>(iu - 13)].raw ? extras[static_cast<size_t>(iu - 13)].p : query_point(f.sph, x, y, depth);
               const std::vector<double> a = normal->properties(p, depth, req), b = unculled->properties(p, depth, req);
               ctx.eval(); ctx.count(c_cmp);
               if (b[2] != -1) { any_in = true; ctx.count(c_in); }
